@@ -22,6 +22,8 @@ PRIMES = [2, 3, 5, 7, 11, 13, 17, 19, 23, 29, 31, 37, 41, 43, 47, 53, 59, 61, 67
 SIG_POWS = "pows-starts-recurrence"          # C20-F1
 SIG_ZIP = "crosspows-zip-misaligned"         # C20-F2
 SIG_ABSENT = "raises-KeyError:absent-namespace"   # C20-F3
+SIG_NAMES = "sparse-names-collide:monomials"      # C20-F4
+SIG_FEATS = "sparse-names-collide:features"       # C20-F5
 
 
 # ------------------------------------------------------------------ building the real call
@@ -223,6 +225,27 @@ def from_model(m):
 
 
 # ------------------------------------------------------------------ the property, read directly
+U53 = Fraction(1, 2 ** 53)
+
+
+def case_tol(case):
+    """relative tolerance of theorem `encode_float_model`/`float_model_rel_error`: values that may round ("r") are
+    compared within (1+2^-53)^(d-1)-1 of the exact monomial, d = largest term degree; everything else exactly"""
+    if not any(it.get("r") for it in all_items(case)):
+        return Fraction(0)
+    d = max([len(t) for t in case["terms"] if isinstance(t, str)] + [1])
+    return (1 + U53) ** (d - 1) - 1
+
+
+def close(a, b, tol):
+    """a (observed) against b (exact)"""
+    return a == b or (tol and abs(a - b) <= tol * abs(b))
+
+
+def close_list(xs, ys, tol):
+    return len(xs) == len(ys) and all(close(a, b, tol) for a, b in zip(xs, ys))
+
+
 def fr(it):
     return Fraction(it["n"][0], it["n"][1])
 
@@ -350,6 +373,22 @@ class Oracle:
                 fs = feats_dense(v)
             self.feats[c] = fs
         self.in_quantifier = all(len(t) > 0 for t in self.terms)
+        self.tol = case_tol(case)
+
+    def name_collisions(self):
+        """keys that two DIFFERENT combinations of features (or a monomial and the constant) share"""
+        ids = {}
+        fid = {c: [(nm, (c, i)) for i, (nm, _) in enumerate(self.feats[c])] for c in self.feats}
+        for t in dedupe(self.terms):
+            lists = [[("".join(k for k, _ in comb), tuple(i for _, i in comb)) for comb in itertools.combinations_with_replacement(fid.get(c, []), p)]
+                     for c, p in factors(t)]
+            for combo in itertools.product(*lists):
+                key = "".join(k for k, _ in combo)
+                ident = tuple(sorted(i for _, part in combo for i in part))
+                ids.setdefault(key, set()).add(ident)
+        if self.const:
+            ids.setdefault("const", set()).add(("const",))
+        return sorted(k for k, v in ids.items() if len(v) > 1)
 
     def entries(self, terms, monos=monos_ref):
         out = []
@@ -375,23 +414,27 @@ class Oracle:
     def matches(self, impl, terms, monos=monos_ref):
         """does what encode returned meet the statement, reading the term list as `terms`?"""
         zero_const = (not self.const) and self.nconst > 0      # a constant summing to 0 may or may not be listed
+        tol = self.tol
         if self.sparse and "sparse" in impl:
             cand = self.sparse_candidates(terms, monos)
             got = dict(impl["sparse"])
             if zero_const and "const" not in cand and got.get("const") == 0:
                 del got["const"]
-            return set(got) == set(cand) and all(got[k] in cand[k] for k in got)
-        if "dense" in impl and (not self.sparse or not self.sparse_used):
-            # dense inputs; or only an unused keyword argument is sparse (then a vector over the dense features is as good)
-            if self.sparse:
-                fd = {c: feats_dense(self.given.get(c)) for c in self.named}
-                exp = ([self.const] if self.const else [])
-                for t in terms:
-                    exp += term_entries(fd, t, False, monos)
-            else:
-                exp = self.dense(terms, monos)
-            return impl["dense"] == exp or (zero_const and impl["dense"] == [Fraction(0)] + exp)
+            return set(got) == set(cand) and all(any(close(got[k], c, tol) for c in cand[k]) for k in got)
+        if "dense" in impl and not self.sparse:
+            exp = self.dense(terms, monos)
+            return close_list(impl["dense"], exp, tol) or (zero_const and close_list(impl["dense"], [Fraction(0)] + exp, tol))
         return False
+
+    def expected_len(self, terms):
+        """dense length by the formula of `encode_length_spec`, independent of the values"""
+        n = 1 if self.const else 0
+        for t in terms:
+            k = 1
+            for c, p in factors(t):
+                k *= math.comb(len(self.feats.get(c, [])) + p - 1, p)
+            n += k
+        return n
 
     def readings(self):
         d = dedupe(self.terms)
@@ -464,12 +507,25 @@ def monitor(case, impl):
     if "bad" in impl:
         fails.append(F("B", "%s returned something that is neither a numeric vector nor a str->number mapping: %s" % (call, impl["bad"]), "malformed-result"))
         return fails, tags, o
-    if (o.sparse_used and "sparse" not in impl) or (not o.sparse and "sparse" in impl):
+    if o.sparse != ("sparse" in impl):
         fails.append(F("B", "%s returned a %s although the inputs are %s" % (call, "mapping" if "sparse" in impl else "vector", "sparse/string-valued" if o.sparse else "dense"), "kind-mismatch"))
         return fails, tags, o
     if o.sparse and o.collided:
-        tags.append("outside:feature-name-collision")
+        # "keys identify the participating features": two features of one namespace got the same name (C20-F5)
+        fails.append(F("B", "%s = %s: two features of a namespace are given the same name, so one of them is lost" % (call, fmt_out(impl)), SIG_FEATS))
         return fails, tags, o
+    if o.sparse:
+        coll = o.name_collisions()
+        if coll:
+            # two different combinations of features share a key: the mapping cannot identify both (C20-F4)
+            fails.append(F("B", "%s = %s: different monomials share the key(s) %s, so the mapping holds one product for several monomials"
+                           % (call, fmt_out(impl), coll[:4]), SIG_NAMES))
+    else:
+        lens = sorted(set(o.expected_len(ts) + z for ts in o.readings() for z in ((0, 1) if (not o.const and o.nconst) else (0,))))
+        if len(impl["dense"]) not in lens:
+            fails.append(F("B", "%s has %d entries; (constant) + sum over terms of prod over namespaces of C(n+p-1,p) = %s"
+                           % (call, len(impl["dense"]), lens), "dense-length"))
+            return fails, tags, o
     if any(o.matches(impl, ts) for ts in o.readings()):
         return fails, tags, o
     # the property is violated; label the failure
@@ -483,9 +539,6 @@ def monitor(case, impl):
     as_sparse = "sparse" in impl
     if as_sparse:
         exp = {"sparse": o.sparse_dict(d)}
-    elif o.sparse:      # only an unused keyword argument is sparse and a vector came back
-        o2 = Oracle({"terms": case["terms"], "ns": [nv for nv in case["ns"] if nv[0] in o.named]})
-        exp = {"dense": o2.dense(d)}
     else:
         exp = {"dense": o.dense(d)}
     if label:
@@ -500,7 +553,7 @@ def monitor(case, impl):
             sig = "sparse-keys:%s" % ("count" if len(cand) != len(impl["sparse"]) else "names")
             what = "missing keys %s, unexpected keys %s" % (miss, extra)
         else:
-            bad = [k for k in cand if impl["sparse"][k] not in cand[k]][:4]
+            bad = [k for k in cand if not any(close(impl["sparse"][k], c, o.tol) for c in cand[k])][:4]
             sig = "sparse-values"
             what = "wrong values at %s" % [(k, str(impl["sparse"][k]), [str(x) for x in cand[k]]) for k in bad]
     else:
@@ -511,10 +564,105 @@ def monitor(case, impl):
         elif sorted(e) == sorted(g):
             sig, what = "dense-order", "the right monomials in the wrong order"
         else:
-            i = next(i for i in range(len(e)) if e[i] != g[i])
+            i = next(i for i in range(len(e)) if not close(g[i], e[i], o.tol))
             sig, what = "dense-values", "entry %d is %s, expected %s" % (i, g[i], e[i])
     fails.append(F("B", "%s = %s, expected %s: %s" % (call, fmt_out(impl), fmt_out(exp), what), sig))
     return fails, tags, o
+
+
+# ------------------------------------------------------------------ the callers (linucb.py, lints.py, synthetics.py)
+def py_to_val(x):
+    """a Python argument a caller passed to encode, as a case value"""
+    def item(v):
+        if isinstance(v, str):
+            return {"s": str(v)}
+        if isinstance(v, int) and not isinstance(v, bool):
+            return {"n": [v, 1]}
+        a, b = float(v).as_integer_ratio()
+        return {"n": [a, b], "f": True, "r": True}
+    if x is None:
+        return {"k": "none"}
+    if isinstance(x, (list, tuple)):
+        return {"k": "dense", "v": [item(v) for v in x], "wrap": "tuple" if isinstance(x, tuple) else "list"}
+    if isinstance(x, dict):
+        return {"k": "sparse", "v": [[{"s": k} if isinstance(k, str) else {"i": k}, item(v)] for k, v in x.items()], "wrap": "dict"}
+    return {"k": "scalar", "v": item(x)}
+
+
+def term_to_case(t):
+    if isinstance(t, str):
+        return str(t)
+    if isinstance(t, int) and not isinstance(t, bool):
+        return {"n": [t, 1]}
+    a, b = float(t).as_integer_ratio()
+    return {"n": [a, b], "f": True}
+
+
+def run_caller(c):
+    """run the real caller with a recording subclass substituted for the module-level name InteractionsEncoder
+    (and a stub `numpy` when numpy is not installed: only the encoder calls made before the first numpy use matter)"""
+    import importlib
+    import importlib.machinery
+    import sys
+    import types
+    import coba.encodings as ce
+    rec = []
+
+    class Rec(ce.InteractionsEncoder):
+        def __init__(self, interactions):
+            self._rec = {"terms": list(interactions), "calls": []}
+            rec.append(self._rec)
+            super().__init__(interactions)
+
+        def encode(self, **kw):
+            try:
+                r = super().encode(**kw)
+                self._rec["calls"].append((dict(kw), canon_out(r)))
+                return r
+            except Exception as e:
+                self._rec["calls"].append((dict(kw), {"err": type(e).__name__, "msg": str(e)[:200]}))
+                raise
+    feats = None if c.get("features") is None else [t if isinstance(t, str) else num(t) for t in c["features"]]
+    modname = {"linucb": "coba.learners.linucb", "lints": "coba.learners.lints", "synthetic": "coba.environments.synthetics"}[c["kind"]]
+    mod = importlib.import_module(modname)
+    saved = mod.InteractionsEncoder
+    fake = None
+    if c["kind"] != "synthetic":
+        try:
+            import numpy  # noqa: F401
+        except ImportError:
+            fake = types.ModuleType("numpy")
+            fake.__spec__ = importlib.machinery.ModuleSpec("numpy", None)
+            fake.zeros = lambda d: [0] * d
+            fake.identity = lambda d: [[int(i == j) for j in range(d)] for i in range(d)]
+            sys.modules["numpy"] = fake
+    outcome = "ok"
+    try:
+        mod.InteractionsEncoder = Rec
+        with capped_memory():
+            if c["kind"] == "synthetic":
+                kwf = {} if feats is None else {"reward_features": feats}
+                sim = mod.LinearSyntheticSimulation(3, n_actions=2, n_context_features=c["nctx"], n_action_features=c["nact"],
+                                                    n_coefficients=None, seed=c.get("seed", 1), **kwf)
+                list(sim.read())
+            else:
+                cls = mod.LinUCBLearner if c["kind"] == "linucb" else mod.LinTSLearner
+                lrn = cls() if feats is None else cls(features=feats)
+                ctx = build_val(c["context"])
+                acts = [build_val(a) for a in c["actions"]]
+                lrn.predict(ctx, acts)
+    except Exception as e:
+        outcome = "%s: %s" % (type(e).__name__, str(e)[:120])
+    finally:
+        mod.InteractionsEncoder = saved
+        if fake is not None and sys.modules.get("numpy") is fake:
+            del sys.modules["numpy"]
+    return rec, outcome
+
+
+def canon_terms(ts):
+    """multiset of term-list entries (Python sets have no order; 1 == 1.0)"""
+    return sorted(("t", t) if isinstance(t, str) else ("n", str(Fraction(t))) for t in ts)
 
 
 # ------------------------------------------------------------------ sending a case to the Lean driver
@@ -555,19 +703,105 @@ class C20(Property):
             "(3,4),(4,3); string values also as str subclasses (coba.primitives.Categorical, a trivial subclass); 45% of the cases are "
             "histories of 2-4 encode() calls on ONE encoder object (same container types with different contents incl. sequences "
             "gaining/losing strings, the SAME list/dict object re-passed after an in-place change, alternating dense/sparse/string "
-            "calls, identical repeats), every call judged on its own; non-trivial = at least one term and at least 3 expected entries; distinct by canonical JSON of the case")
+            "calls, identical repeats), every call judged on its own; 16% of the cases use arbitrary doubles (products round; tolerance of "
+            "encode_float_model); 4% run the real LinUCB / LinTS / LinearSyntheticSimulation with random feature lists, contexts and "
+            "feature counts and compare the term list they hand to the encoder with learnerTerms / syntheticTerms, and judge every encode "
+            "call they make; dense lengths are checked against the binomial formula independently of the values; non-trivial = at least one term and at least 3 expected entries; distinct by canonical JSON of the case")
     trusted_base = [
-        "products are compared exactly (ints, or dyadic floats small enough that every float product is exact)",
+        "products are compared exactly (ints, or dyadic floats small enough that every float product is exact); cases with arbitrary doubles "
+        "are compared at the relative tolerance (1+2^-53)^(d-1)-1 of theorem encode_float_model (standard model: no under/overflow, "
+        "round-to-nearest IEEE doubles satisfy FloatMul 2^-53 - assumed, magnitudes kept within 1e-70..1e60)",
         "Python dict/OrderedDict insertion semantics are modelled by an association list (dictSet/dictOf)",
         "str() of int keys and indices equals Lean's toString on Int/Nat",
+        "Python's set order in the learners' rewritten term list is not modelled: the list is compared as a set",
+        "the callers are run with a recording subclass substituted for the module-level name InteractionsEncoder and, where numpy is "
+        "not installed, a stub numpy module (only the encoder calls made before the first numpy use are observed)",
     ]
     assumptions = [
-        "a term list with a repeated term string may be read either as a list or as an ordered set: (B) accepts both readings; the model de-duplicates like the code",
-        "feature names that collide after prefixing (e.g. keys 1 and '1') are outside (B): only the model correspondence applies",
+        "a term list with a repeated term string may be read as a list or as an ordered set: the statement is silent, (B) accepts both; the model de-duplicates like the code and like the callers",
+        "numeric constants that sum to 0: the statement is silent on whether a 0 entry is listed, (B) accepts both; code and model omit it",
+        "a mapping is demanded whenever ANY keyword argument is sparse / string-valued (\"for sparse or string-valued inputs, as a mapping\")",
+        "different monomials (or features) with the same concatenated name violate \"keys identify the participating features\": recorded findings C20-F4/F5, theorems carry the distinct-names hypothesis",
         "terms that name no namespace ('') are outside the quantifier: IndexError in code and model",
-        "non-numeric feature values other than str, nested containers, bool, nan/inf are not generated",
+        "non-numeric feature values other than str (and str subclasses), nested containers, bool, nan/inf are not generated",
     ]
-    partial_theorems = {}
+    partial_theorems = {
+        "encode_sparse_faithful_partial": "the mapping holds every (name, product) monomial only when the concatenated names are pairwise "
+                                          "distinct; plain concatenation is not injective (C20-F4, sparse_key_collision_counterexample)",
+        "sparse_feats_distinct": "no feature of a namespace is lost only when the formatted names are distinct (C20-F5, feature_name_collision_counterexample)",
+    }
+
+    # ---- translator part: the callers' default term lists are re-extracted from the source on every run
+    def pre_build(self):
+        import ast
+        from core import lean
+        repo = os.environ.get("COBA_REPO", "/repo")
+
+        def default_of(rel, cls, arg):
+            tree = ast.parse(open(os.path.join(repo, rel), encoding="utf-8").read())
+            for node in ast.walk(tree):
+                if isinstance(node, ast.ClassDef) and node.name == cls:
+                    for fn in node.body:
+                        if isinstance(fn, ast.FunctionDef) and fn.name == "__init__":
+                            args = fn.args.args
+                            defaults = fn.args.defaults
+                            off = len(args) - len(defaults)
+                            for i, a in enumerate(args):
+                                if a.arg == arg and i >= off:
+                                    return ast.literal_eval(defaults[i - off])
+            raise LookupError("%s.%s(%s=...) not found in %s" % (cls, "__init__", arg, rel))
+
+        def lean_inter(t):
+            if isinstance(t, str):
+                if not all(ch.isascii() and ch.isalnum() for ch in t):
+                    raise ValueError("unexpected character in term %r" % t)
+                return ".term [%s]" % ", ".join("'%s'" % ch for ch in t)
+            if isinstance(t, bool) or not isinstance(t, (int, float)):
+                raise ValueError("unexpected entry %r" % (t,))
+            a, b = Fraction(t).numerator, Fraction(t).denominator
+            return ".num (%s)" % ("%d" % a if b == 1 and a >= 0 else "(%d : Rat) / %d" % (a, b))
+
+        notes, ok = [], True
+        vals = {}
+        try:
+            vals["linucb"] = list(default_of("coba/learners/linucb.py", "LinUCBLearner", "features"))
+            vals["lints"] = list(default_of("coba/learners/lints.py", "LinTSLearner", "features"))
+            syn = default_of("coba/environments/synthetics.py", "LinearSyntheticSimulation", "reward_features")
+            vals["synthetic"] = [syn] if isinstance(syn, str) else list(syn)
+            import re
+            src = open(os.path.join(repo, "coba/evaluators/offline.py"), encoding="utf-8").read()
+            m = re.search(r"InteractionsEncoder\(\s*(['\"][^'\"]*['\"]|\[[^\]]*\])\s*\)", src)
+            off = ast.literal_eval(m.group(1)) if m else "x"
+            vals["offline"] = list(off)      # a str argument is iterated character by character
+            if not all(isinstance(t, str) for t in vals["synthetic"]):
+                raise ValueError("reward_features default is not a list of strings")
+            body = ("-- GENERATED by harness/props/c20.py from coba/learners/linucb.py, lints.py, coba/environments/synthetics.py,\n"
+                    "-- coba/evaluators/offline.py on every run; do not edit.\n"
+                    "import CobaVerif.Model.C20\nnamespace Coba.Generated.C20\nopen Coba.C20\n"
+                    "def linucbFeatures : List Inter := [%s]\ndef lintsFeatures : List Inter := [%s]\n"
+                    "def syntheticFeatures : List (List Char) := [%s]\ndef offlineFeatures : List Inter := [%s]\n"
+                    "def extracted : Bool := true\nend Coba.Generated.C20\n"
+                    % (", ".join(lean_inter(t) for t in vals["linucb"]), ", ".join(lean_inter(t) for t in vals["lints"]),
+                       ", ".join("[%s]" % ", ".join("'%s'" % ch for ch in t) for t in vals["synthetic"] if lean_inter(t)),
+                       ", ".join(lean_inter(t) for t in vals["offline"])))
+            notes.append("caller defaults extracted: linucb %r, lints %r, synthetic %r, offline %r" % (vals["linucb"], vals["lints"], vals["synthetic"], vals["offline"]))
+        except Exception as e:
+            ok = False
+            body = ("-- GENERATED: the default term lists could not be extracted from the callers (%s);\n"
+                    "-- `callers_wellformed` is then stated about the last known defaults only.\n"
+                    "import CobaVerif.Model.C20\nnamespace Coba.Generated.C20\nopen Coba.C20\n"
+                    "def linucbFeatures : List Inter := [.num (1), .term ['a'], .term ['a', 'x']]\n"
+                    "def lintsFeatures : List Inter := [.num (1), .term ['a'], .term ['a', 'x']]\n"
+                    "def syntheticFeatures : List (List Char) := [['a'], ['x', 'a']]\ndef offlineFeatures : List Inter := [.term ['x']]\n"
+                    "def extracted : Bool := false\nend Coba.Generated.C20\n" % str(e).replace("\n", " ")[:150])
+            notes.append("caller defaults could NOT be extracted (%s); callers_wellformed is about the last known defaults; the caller cases of the correspondence still run" % e)
+        path = os.path.join(lean.LEAN_DIR, "CobaVerif", "Generated", "C20Callers.lean")
+        old = open(path, encoding="utf-8").read() if os.path.exists(path) else None
+        if old != body:
+            os.makedirs(os.path.dirname(path), exist_ok=True)
+            with open(path, "w", encoding="utf-8") as f:
+                f.write(body)
+        return notes
 
     # ---- values
     def gen_numbers(self, rng, pool, k, state):
@@ -579,6 +813,13 @@ class C20(Property):
                 out.append({"n": [p, 1]})
             elif pool == "small":
                 out.append({"n": [rng.choice([0, 1, 1, 2, 2, 3, -1, -2, 5]), 1]})
+            elif pool == "floats":
+                # arbitrary doubles: products round; compared at the tolerance of theorem encode_float_model
+                x = rng.choice([0.1, 0.3, 1 / 3, 2.7, 1.1, -0.7, 12.34, 1e-3, 3.14159, 0.0, 7.0, 0.9999999, 123.456, -2.5e-2, 1.7e2])
+                if rng.chance(0.5):
+                    x = x * rng.randint(1, 97) / rng.randint(1, 89)
+                a, b = float(x).as_integer_ratio()
+                out.append({"n": [a, b], "f": True, "r": True})
             else:
                 out.append({"n": [rng.choice([1, 3, 5, 7, -3, 9, 11]), rng.choice([1, 2, 2, 4])], "f": True})
         return out
@@ -674,7 +915,29 @@ class C20(Property):
             terms.insert(rng.below(len(terms) + 1), {"n": [rng.choice([1, 2, -1]), 1]})
         return {"terms": terms, "ns": ns}
 
+    def gen_caller(self, rng):
+        kind = rng.choice(["linucb", "lints", "synthetic"])
+        P = lambda k, off: {"k": "dense", "v": [{"n": [p, 1]} for p in PRIMES[off:off + k]], "wrap": "list"}
+        n = W(rng, [(1, 3), (2, 5), (3, 4), (4, 2)])
+        feats = [self.gen_term(rng, ["x", "a"], False)[:6] for _ in range(n)]
+        if rng.chance(0.3):
+            feats.insert(rng.below(len(feats) + 1), rng.choice(feats))
+        if rng.chance(0.35):
+            feats += rng.choice([["x"], ["a"], ["xx"], ["x", "xa"]])
+        if kind == "synthetic":
+            return {"caller": {"kind": kind, "features": feats, "nctx": rng.choice([0, 0, 1, 2, 3]), "nact": rng.choice([0, 1, 2, 2]), "seed": rng.randint(1, 5)}}
+        for _ in range(W(rng, [(0, 3), (1, 5), (2, 2)])):
+            feats.insert(0 if rng.chance(0.6) else rng.below(len(feats) + 1), rng.choice([{"n": [1, 1]}, {"n": [1, 1]}, {"n": [0, 1]}, {"n": [2, 1]}, {"n": [1, 1], "f": True}]))
+        if rng.chance(0.08):
+            feats.insert(rng.below(len(feats) + 1), "")
+        ctx = W(rng, [({"k": "none"}, 4), ({"k": "dense", "v": [], "wrap": "list"}, 2), (P(rng.randint(1, 3), 0), 6), ({"k": "scalar", "v": {"n": [7, 1]}}, 1)])
+        na = rng.randint(1, 3)
+        acts = [{"k": "dense", "v": [{"n": [PRIMES[4 + i * 3 + j], 1]} for j in range(na)], "wrap": rng.choice(["list", "tuple"])} for i in range(2)]
+        return {"caller": {"kind": kind, "features": feats, "context": ctx, "actions": acts}}
+
     def generate(self, rng, tier, focus=False):
+        if not focus and rng.chance(0.04):
+            return self.gen_caller(rng)
         case = self.gen_call(rng, tier, focus)
         self.subclass_strings(rng, case["ns"])
         if rng.chance(0.45 if not focus else 0.6):
@@ -744,7 +1007,8 @@ class C20(Property):
             else:
                 ns = []
                 # keep every product exact: a call with floats only receives small dyadic floats
-                pool = "dyadic" if any(it.get("f") for it in all_items({"ns": prev})) else "primes"
+                pool = ("floats" if any(it.get("r") for it in all_items({"ns": prev}))
+                        else "dyadic" if any(it.get("f") for it in all_items({"ns": prev})) else "primes")
                 for c, v in prev:
                     v2 = self.vary(rng, v, state, pool)
                     if mode == "same-object" and "obj" in v:
@@ -782,7 +1046,7 @@ class C20(Property):
             terms.insert(pos, dict(c))
         # namespaces
         call = W(rng, [("dense", 45), ("sparse", 30), ("mixed", 25)])
-        pool = W(rng, [("primes", 70), ("small", 15), ("dyadic", 15)])
+        pool = W(rng, [("primes", 60), ("small", 12), ("dyadic", 12), ("floats", 16)])
         if call == "dense":
             kindw = [("dense", 74), ("scalar", 8), ("none", 6), ("empty", 6), ("absent", 5)]
         elif call == "sparse":
@@ -794,7 +1058,7 @@ class C20(Property):
         ns = []
         for c in letters:
             nmax = 6
-            if pool == "dyadic":
+            if pool in ("dyadic", "floats"):
                 nmax = 4
             if maxdeg[c] >= 5:
                 nmax = min(nmax, 5)
@@ -893,6 +1157,14 @@ class C20(Property):
             {"terms": [{"n": [2, 1]}], "ns": []},
             {"terms": ["xxxa", "aaa"], "ns": [["a", P(2, 3, 5, 7)], ["x", P(11, 13, 17)]]},
             {"terms": ["xxxxaaa"], "ns": [["x", P(2, 3, 5)], ["a", P(7, 11, 13, 17)]]},
+            # the callers with their default term lists
+            {"caller": {"kind": "linucb", "features": None, "context": P(2, 3), "actions": [P(5, 7), P(11, 13)]}},
+            {"caller": {"kind": "linucb", "features": None, "context": {"k": "none"}, "actions": [P(5, 7), P(11, 13)]}},
+            {"caller": {"kind": "lints", "features": None, "context": P(2, 3), "actions": [P(5), P(11)]}},
+            {"caller": {"kind": "lints", "features": None, "context": {"k": "dense", "v": [], "wrap": "list"}, "actions": [P(5), P(11)]}},
+            {"caller": {"kind": "synthetic", "features": None, "nctx": 2, "nact": 2}},
+            {"caller": {"kind": "synthetic", "features": None, "nctx": 0, "nact": 2}},
+            {"caller": {"kind": "synthetic", "features": None, "nctx": 2, "nact": 0}},
             # histories on one encoder object (minimised seeded mutants m2-m4 of round c20b)
             {"terms": ["x", "xx"], "ns": [["x", D({"s": "a"}, {"n": [3, 1]})]], "hist": [[["x", P(2, 3)]], [["x", D({"n": [5, 1]}, {"s": "b"})]]]},
             {"terms": ["x", "xx"], "ns": [["x", P(2, 3)]], "hist": [[["x", D({"s": "a"}, {"n": [3, 1]})]], [["x", P(5, 7)]]]},
@@ -911,6 +1183,8 @@ class C20(Property):
     def evaluate(self, case, driver):
         """a case is a history of 1-4 encode() calls on ONE encoder object; encode is a function of (terms,
         arguments) only, so every call is judged on its own, (A)(B)(C), exactly like a single call"""
+        if "caller" in case:
+            return self.evaluate_caller(case, driver)
         calls = calls_of(case)
         if len(calls) == 1:
             return self.evaluate_call(single(case, 0), run_impl(single(case, 0)), driver)
@@ -942,6 +1216,53 @@ class C20(Property):
         if len(kinds) > 1:
             out["tags"].append("hist:dense-and-sparse-calls")
         return out
+
+    def evaluate_caller(self, case, driver):
+        """the real LinUCB / LinTS / LinearSyntheticSimulation code builds a term list and calls encode: (A) the list
+        equals the model's `learnerTerms` / `syntheticTerms`; (B) every encode call they made meets the statement"""
+        c = case["caller"]
+        rec, outcome = run_caller(c)
+        fails, tags = [], ["caller:" + c["kind"]]
+        if not rec:
+            return {"fails": [], "tags": tags + ["caller:no-encoder(%s)" % outcome.split(":")[0]], "nontrivial": False, "impl": outcome, "model": None}
+        eff = rec[-1]["terms"]
+        has_ctx = bool(build_val(c["context"])) if c["kind"] != "synthetic" else True
+        tags.append("caller:%s" % ("as-given" if (c["kind"] != "synthetic" and has_ctx) else "rewritten"))
+        derived = c["kind"] == "synthetic" or not has_ctx or c.get("features") is None
+        if c.get("features") is None:
+            tags.append("caller:default-features")
+        if derived and any(isinstance(t, str) and t == "" for t in eff):
+            fails.append(F("B", "%s built the term list %r for InteractionsEncoder: it contains a term naming no namespace" % (c["kind"], eff), "caller-empty-term"))
+        ncalls = 0
+        for r in rec:
+            for kw, res in r["calls"]:
+                one = {"terms": [term_to_case(t) for t in r["terms"]], "ns": [[k, py_to_val(v)] for k, v in kw.items()]}
+                out = self.evaluate_call(one, res, driver)
+                ncalls += 1
+                for f in out["fails"]:
+                    fails.append(dict(f, what="inside %s: %s" % (c["kind"], f["what"]), sig="caller:" + f["sig"]))
+        model = None
+        if driver is not None:
+            if c.get("features") is None:      # the default term list: the model side is the Generated file (callers_wellformed)
+                return {"fails": fails, "tags": tags, "nontrivial": ncalls > 0, "impl": {"terms": [str(t) for t in eff], "outcome": outcome}, "model": None}
+            req = {"op": "callers", "kind": "synthetic" if c["kind"] == "synthetic" else "learner", "has_context": has_ctx,
+                   "nctx": c.get("nctx", 1), "nact": c.get("nact", 1),
+                   "features": [{"t": t} if isinstance(t, str) else {"n": t["n"]} for t in c["features"]]}
+            ans = driver.ask(req)
+            model = ans
+            mterms = [t["t"] if "t" in t else Fraction(t["n"][0], t["n"][1]) for t in ans["terms"]]
+            # compared up to what the encoder cannot distinguish: the constants only count through their sum, the string
+            # terms as an ordered set (the learners build theirs through a Python set: no order)
+            dd = lambda ts: [t for i, t in enumerate(ts) if t not in ts[:i]]
+            nf = lambda ts: (sum((Fraction(t) for t in ts if not isinstance(t, str)), Fraction(0)), dd([t for t in ts if isinstance(t, str)]))
+            ce, cm = nf(eff), nf(mterms)
+            same = (ce == cm) if c["kind"] == "synthetic" else (ce[0] == cm[0] and set(ce[1]) == set(cm[1]))
+            if not same:
+                fails.append(F("A", "%s(features=%r, context %s) handed %r to InteractionsEncoder, the model says %r"
+                               % (c["kind"], [t if isinstance(t, str) else num(t) for t in c["features"]], "present" if has_ctx else "empty", eff, mterms), "A:caller-terms"))
+            if derived and not all(len(t) > 0 for t in mterms if isinstance(t, str)):
+                fails.append(F("C", "model's derived term list has an empty term", "C:caller-nonempty"))
+        return {"fails": fails, "tags": tags, "nontrivial": ncalls > 0 and len(eff) > 0, "impl": {"terms": [str(t) for t in eff], "outcome": outcome}, "model": model}
 
     def evaluate_call(self, case, impl, driver):
         fails, tags, o = monitor(case, impl)
@@ -977,7 +1298,7 @@ class C20(Property):
                     tags.append("region:n>=2,d>=2")
         tags.append("maxdeg:%d" % min(maxd, 6))
         if any(it.get("f") for it in all_items(case)):
-            tags.append("values:float")
+            tags.append("values:float" + (":rounding" if o.tol else ":exact"))
         for sc in sorted(set(it["sc"] for it in all_items(case) if it.get("sc"))):
             tags.append("values:str-subclass:" + sc)
         if o.sparse and not o.collided and "sparse" in impl:
@@ -993,10 +1314,10 @@ class C20(Property):
             ans = driver.ask(to_driver(case))
             model = ans["model"]
             m = from_model(model)
-            if not self.same(impl, m):
+            if not self.same(impl, m, o.tol):
                 # the three recorded defects are switchable in the model: an implementation that equals the
                 # model of the unchanged tree (or of a partly repaired one) corresponds; (B) reports the defect
-                which = [(fp, fz, fa) for fp, fz, fa, out in ans["variants"] if self.same(impl, from_model(out))]
+                which = [(fp, fz, fa) for fp, fz, fa, out in ans["variants"] if self.same(impl, from_model(out), o.tol)]
                 from core.engine import load_known
                 open_known = [k for k in load_known() if k.get("property") == "C20" and k.get("status", "open") == "open"]
                 if which and open_known:
@@ -1009,6 +1330,12 @@ class C20(Property):
             # (C) the model meets the spec whenever the theorem's hypothesis holds, and the Lean spec is the
             # reading used by the direct monitor (itertools.combinations_with_replacement, itertools.product)
             spec = from_model(ans["spec"])
+            if ans["hyp"] and not o.sparse:
+                # `encode_length_spec`: the model's length formula, the binomial formula of the monitor, the implementation
+                if ans["len"] != o.expected_len(dedupe(o.terms)):
+                    fails.append(F("C", "encodeLen = %d but the binomial formula gives %d" % (ans["len"], o.expected_len(dedupe(o.terms))), "C:length-formula"))
+                if "dense" in impl and len(impl["dense"]) != ans["len"]:
+                    fails.append(F("A", "%s has %d entries, encodeLen says %d" % (show_call(case), len(impl["dense"]), ans["len"]), "A:length"))
             if ans["hyp"]:
                 if m != spec:
                     fails.append(F("C", "model %s differs from its specification %s although every term names a namespace" % (json.dumps(model)[:200], json.dumps(ans["spec"])[:200]), "C:model-vs-spec"))
@@ -1021,13 +1348,13 @@ class C20(Property):
         return {"fails": fails, "nontrivial": nontrivial, "tags": tags, "impl": jsonable(impl) if ("dense" in impl or "sparse" in impl) else impl, "model": model}
 
     @staticmethod
-    def same(impl, m):
+    def same(impl, m, tol=0):
         if "err" in impl or "err" in m:
             return impl.get("err") == m.get("err")
         if "dense" in impl and "dense" in m:
-            return impl["dense"] == m["dense"]
+            return close_list(impl["dense"], m["dense"], tol)
         if "sparse" in impl and "sparse" in m:
-            return impl["sparse"] == m["sparse"]
+            return set(impl["sparse"]) == set(m["sparse"]) and all(close(v, m["sparse"][k], tol) for k, v in impl["sparse"].items())
         return False
 
     # ---- shrinking
@@ -1036,6 +1363,16 @@ class C20(Property):
         return itertools.islice(self.shrink_all(case), 160)
 
     def shrink_all(self, case):
+        if "caller" in case:
+            c = case["caller"]
+            if c.get("features") is None:
+                return
+            for i in range(len(c["features"])):
+                yield {"caller": dict(c, features=c["features"][:i] + c["features"][i + 1:])}
+            for i, t in enumerate(c["features"]):
+                if isinstance(t, str) and len(t) > 1:
+                    yield {"caller": dict(c, features=c["features"][:i] + [t[:-1]] + c["features"][i + 1:])}
+            return
         calls = calls_of(case)
         mk = lambda terms, cs: dict({"terms": terms, "ns": cs[0]}, **({"hist": cs[1:]} if len(cs) > 1 else {}))
         if len(calls) > 1:
@@ -1090,6 +1427,22 @@ class C20(Property):
     def snippet(self, case):
         if case is None:
             return ""
+        if "caller" in case:
+            c = case["caller"]
+            if c.get("features") is None:
+                return "# %s with its default term list; see evaluate_caller in harness/props/c20.py\n" % c["kind"]
+            feats = [t if isinstance(t, str) else num(t) for t in c["features"]]
+            if c["kind"] == "synthetic":
+                return ("import sys; sys.path.insert(0, %r)\nimport coba.environments.synthetics as m\n"
+                        "class Rec(m.InteractionsEncoder):\n    def __init__(self, i): print('terms', list(i)); super().__init__(i)\n"
+                        "m.InteractionsEncoder = Rec\nlist(m.LinearSyntheticSimulation(3, n_actions=2, n_context_features=%d, n_action_features=%d, n_coefficients=None, reward_features=%r, seed=%d).read())\n"
+                        % (os.environ.get("COBA_REPO", "/repo"), c["nctx"], c["nact"], feats, c.get("seed", 1)))
+            return ("import sys; sys.path.insert(0, %r)\nimport coba.learners.%s as m   # needs numpy (the harness stubs it)\n"
+                    "class Rec(m.InteractionsEncoder):\n    def __init__(self, i): print('terms', list(i)); super().__init__(i)\n"
+                    "    def encode(self, **kw): r = super().encode(**kw); print(kw, '->', r); return r\n"
+                    "m.InteractionsEncoder = Rec\nm.%s(features=%r).predict(%r, %r)\n"
+                    % (os.environ.get("COBA_REPO", "/repo"), c["kind"], "LinUCBLearner" if c["kind"] == "linucb" else "LinTSLearner",
+                       feats, build_val_plain(c["context"]), [build_val_plain(a) for a in c["actions"]]))
         calls = calls_of(case)
         lines = ["import sys, itertools; sys.path.insert(0, %r)" % os.environ.get("COBA_REPO", "/repo"),
                  "from coba.encodings import InteractionsEncoder"]
